@@ -152,59 +152,51 @@ def parseObs (t : String) : Except String Obs :=
 
 def isErrOut (s : String) : Bool := s.startsWith "e-"
 
-/-- check one observed step against the specification; `pre` = history before it, `before` = state name before -/
-def checkStep (cfg : Cfg) (pre : List Op) (before : String) (o : Obs) : Option String :=
-  let h := Spec.Handshake.hist cfg.flags pre
-  let h' := Spec.Handshake.hist cfg.flags (pre ++ [o.op])
-  if o.out == "panic" then some "panic"
-  else if o.neg != negText h'.neg then some ("negotiated-flags spec=" ++ negText h'.neg ++ " impl=" ++ o.neg)
+open Edp.Spec.Handshake (Phase Conn Side Resp connStep) in
+/-- the state names the implementation may show while the protocol automaton is in a phase -/
+def phaseStates : Phase → List String
+  | .idle => ["disconnected"]
+  | .begun => ["connecting"]
+  | .nameSent => ["awaiting_status"]
+  | .accepted => ["awaiting_challenge"]
+  | .challenged _ _ => ["sending_challenge_reply"]
+  | .replied _ => ["awaiting_challenge_ack"]
+  | .established => ["connected"]
+  | .dead => ["failed", "sending_name"]
+
+open Edp.Spec.Handshake (Phase Conn Side Resp connStep) in
+/-- check one observed step against the protocol automaton of the connecting side (`Spec.Handshake.connStep`, digest =
+MD5 implemented in Lean); `h` = the automaton before the call, `before` = the implementation's state name before it -/
+def checkStep (p : Side) (h : Conn) (before : String) (o : Obs) : Except String Conn :=
+  let (h', r) := connStep p Spec.Handshake.digest h o.op
+  if o.out == "panic" then .error "panic"
   else
-    -- connected only by an ack carrying the digest of the cookie and the challenge issued in this handshake
+    -- stated independently of the automaton: connected is entered only by a successful ack carrying the digest of the
+    -- cookie and the challenge issued while the reply was outstanding; an error result never enters connected
     let entered := o.state == "connected" && before != "connected"
     let justified : Bool :=
-      match o.op, h.our with
-      | .handleChallengeAck b, some c => Spec.Handshake.parseAck b == some (Spec.Handshake.digest cfg.cookie c) && o.out == "ok"
+      match o.op, h.phase with
+      | .handleChallengeAck b, .replied c =>
+        Spec.Handshake.parseAck b == some (Spec.Handshake.digest p.cookie c) && o.out == "ok"
       | _, _ => false
-    if entered && !justified then some "connected-without-proof"
-    else if isErrOut o.out && entered then some "error-yet-connected"
+    if entered && !justified then .error "connected-without-proof"
+    else if isErrOut o.out && entered then .error "error-yet-connected"
+    else if !(phaseStates h'.phase).contains o.state then
+      .error ("state impl=" ++ o.state ++ " protocol=" ++ " ".intercalate (phaseStates h'.phase))
+    else if o.neg != negText h'.neg && h'.phase != .dead then
+      .error ("negotiated-flags spec=" ++ negText h'.neg ++ " impl=" ++ o.neg)
     else
-      match o.op with
-      | .prepareSendName =>
-        if cfg.name.length ≤ 255 then
-          if o.out == "ok:" ++ hexOf (Spec.Handshake.sendNameOld cfg.flags cfg.name) then none else some "send-name-layout"
-        else if isErrOut o.out then none else some "send-name-too-long-accepted"
-      | .prepareComplement =>
-        if o.out == "ok:" ++ hexOf (Spec.Handshake.complement cfg.flags cfg.creation) then none else some "complement-layout"
-      | .prepareChallengeReply =>
-        match h.our, h.their with
-        | some c, some t =>
-          let want := Spec.Handshake.reply c (Spec.Handshake.digest cfg.cookie t)
-          if o.out == "ok:" ++ hexOf want && Spec.Handshake.parseReply want == some (c, Spec.Handshake.digest cfg.cookie t)
-          then none else some "reply-layout-or-digest"
-        | _, _ => if isErrOut o.out then none else some "reply-without-challenge"
-      | .handleStatus b =>
-        match Spec.Handshake.parseStatus b with
-        | some st => if st.accepts then (if o.out == "ok" then none else some "good-status-rejected")
-                     else if isErrOut o.out then none else some "refusal-accepted"
-        | none => if isErrOut o.out then none else some "malformed-status-accepted"
-      | .handleChallenge b _ =>
-        match Spec.Handshake.parseChallenge b with
-        | some _ => if o.out == "ok" then none else some "good-challenge-rejected"
-        | none => if isErrOut o.out then none else some "malformed-challenge-accepted"
-      | .handleChallengeAck b =>
-        let good : Bool := match h.our with
-          | some c => Spec.Handshake.parseAck b == some (Spec.Handshake.digest cfg.cookie c)
-          | none => false
-        if good then (if o.out == "ok" && o.state == "connected" then none else some "good-ack-rejected")
-        else if isErrOut o.out && o.state == before then none else some "bad-ack-accepted"
-      | _ => none
+      match r with
+      | .ok => if o.out == "ok" then .ok h' else .error ("expected success, got " ++ o.out.take 24)
+      | .sent b => if o.out == "ok:" ++ hexOf b then .ok h' else .error ("emitted bytes differ from the protocol layout: " ++ o.out.take 60)
+      | .error => if isErrOut o.out then .ok h' else .error ("expected an error, got " ++ o.out.take 24)
 
-def checkTrace (cfg : Cfg) : List Op → String → List Obs → Nat → Option String
+def checkTrace (p : Spec.Handshake.Side) : Spec.Handshake.Conn → String → List Obs → Nat → Option String
   | _, _, [], _ => none
-  | pre, before, o :: rest, i =>
-    match checkStep cfg pre before o with
-    | some why => some ("step " ++ toString i ++ " " ++ why)
-    | none => checkTrace cfg (pre ++ [o.op]) o.state rest (i + 1)
+  | h, before, o :: rest, i =>
+    match checkStep p h before o with
+    | .error why => some ("step " ++ toString i ++ " " ++ why)
+    | .ok h' => checkTrace p h' o.state rest (i + 1)
 
 end C04
 
@@ -222,7 +214,7 @@ def handleC04 : List String → Option String
   | "c04chk" :: n :: c :: f :: cr :: obs => some <| run do
       let cfg ← getCfg n c f cr
       let obs ← obs.mapM parseObs
-      match checkTrace cfg [] "disconnected" obs 0 with
+      match checkTrace ⟨cfg.name, cfg.cookie, cfg.flags, cfg.creation⟩ Spec.Handshake.Conn.empty "disconnected" obs 0 with
       | none => pure "ok"
       | some why => pure ("FAIL " ++ why)
   -- message codecs (model vs code)
@@ -269,7 +261,20 @@ def handleC04 : List String → Option String
   | ["c04p_ack", ch, c, h] => some <| run do
       pure (if (← getHex h) == Spec.Handshake.ack (dgMd5 (← getHex c) (← getNat ch)) then "ok" else "FAIL layout")
   | ["c04p_status", txt, h] => some <| run do
-      pure (if (← getHex h) == Spec.Handshake.status (← getHex txt) then "ok" else "FAIL layout")
+      let t ← getHex txt
+      let m ← getHex h
+      pure (if m == Spec.Handshake.status t && (Spec.Handshake.parseStatus (m.drop 2)).isSome then "ok" else "FAIL layout")
+  -- capability flags: the regenerated table against the compiled constants (tie), and against the protocol (oracle)
+  | ["c04flagconst", name] => some (match flagConst name with | some v => toString v | none => "unknown")
+  | ["c04flagset", name] => some (match name with
+      | "MANDATORY_OTP26" => toString flagMandatory
+      | "DEFAULT" => toString flagDefault
+      | "DEFAULT_HIDDEN" => toString flagDefaultHidden
+      | _ => "unknown")
+  | ["c04flagnames"] => some (" ".intercalate (Gen.DIST_FLAGS.map (·.1)))
+  | ["c04p_flagbit", name, v] => some (match Spec.Handshake.protocolFlag name with
+      | some w => if toString w == v then "ok" else "FAIL protocol=" ++ toString w
+      | none => "FAIL not-a-protocol-capability")
   | _ => none
 
 end Edp.Drv
